@@ -30,18 +30,21 @@ for q in ("cohdl._core._type_qualifier:Port.direction", "cohdl._core._type_quali
     C.inline(q)
 
 I.register_model(VhdlScope.__dict__["format_type"], lambda it, self, obj: Opaque("type-text", obj))
+C.inline("cohdl._core._type_qualifier:TypeQualifier.has_default")
+C.inline("cohdl._core._type_qualifier:TypeQualifier.default")
 
 DIRS = {"in": Port.Direction.INPUT, "out": Port.Direction.OUTPUT, "inout": Port.Direction.INOUT}
 
 
-def entity_shape(dirs, depth):
-    """entity with len(dirs) ports; the ports are declared `depth` scopes above the entity's scope"""
+def entity_shape(dirs, depth, defaults=False):
+    """entity with len(dirs) ports; the ports are declared `depth` scopes above the entity's scope; defaults: every port
+    has a default value"""
 
     def make(env):
         ports = {}
         decls = {}
         for i, d in enumerate(dirs):
-            p = SObj(SCls(Port, wrapped=Bit, direction=DIRS[d]), _value=SObj(Bit), _root=None, _ref_spec=[])
+            p = SObj(SCls(Port, wrapped=Bit, direction=DIRS[d]), _value=SObj(Bit), _root=None, _ref_spec=[], _default=SObj(Bit, f_tag=f"default of port {i}") if defaults else None)
             key = SStr(z3.Const(f"declared_name{i}", sym.StrS))
             ports[key] = p
             decls[p] = SObj(VhdlScope.Declaration, obj=p, active=True, name=SStr(z3.Const(f"scope_name{i}", sym.StrS)), name_hint=None)
@@ -79,6 +82,21 @@ def spec_ports(dirs):
                 if (i < len(keys) - 1) != last.endswith(";"):
                     return False
                 port = real.fields["_ports"][key]
+                # C04 ("after reset is released the context behaves exactly as it does after power-up"): an inout port is not
+                # buffered -- its reset value, the declared default, is the power-up value only if the port declaration carries
+                # it as the initial value of the port's driver; the other directions declare no default (in: driven from
+                # outside; out: the buffer signal carries it)
+                dflt = port.fields.get("_default")
+                inits = [j for j, p in enumerate(parts) if isinstance(p, str) and ":=" in p]
+                if d == "inout" and dflt is not None:
+                    if len(inits) != 1 or inits[0] + 1 >= len(parts):
+                        return False
+                    lit = parts[inits[0] + 1]
+                    lit = lit.value if isinstance(lit, TextOf) else lit
+                    if not (isinstance(lit, Opaque) and lit.tag == "literal-text" and lit.deps[0] is dflt):
+                        return False
+                elif inits:
+                    return False
                 conds.append(decls[port].fields["name"].term == key.term)
             return sym.And(*conds)
 
@@ -171,3 +189,41 @@ for dirs in (("in",), ("out",), ("inout",), ("in", "out"), ("out", "in", "inout"
         c.native = False
         c.may_reject = AssertionError
         con.cases.append(c)
+    contract(QUAL, ("C04",))
+    c = Case(f"{'-'.join(dirs)}@0,with-defaults", [entity_shape(dirs, 0, defaults=True)], spec_ports(dirs))
+    c.native = False
+    c.may_reject = AssertionError
+    c.props = ("C04", "C06")
+    c.models = [(VhdlScope.__dict__["format_literal"], lambda it, self, obj, *a, **k: Opaque("literal-text", obj))]  # case-level: other contracts model it differently
+    c.custom_replay = "contracts.c06_ports.replay_inout_default"
+    con.cases.append(c)
+
+
+_INOUT_DESIGN = '''
+import re
+from cohdl import Entity, Port, Bit, BitVector, std
+
+class Top(Entity):
+    clk = Port.input(Bit)
+    rst = Port.input(Bit)
+    d = Port.input(Bit)
+    io = Port.inout(Bit, default=True)
+
+    def architecture(self):
+        @std.sequential(std.Clock(self.clk), std.Reset(self.rst))
+        def proc():
+            self.io <<= self.d
+
+t = std.VhdlCompiler.to_string(Top)
+reset_to_default = re.search(r"io <= '1';", t) is not None
+initial = re.search(r"io : inout std_logic := '1'", t) is not None
+print("RESET_TO_DEFAULT" if reset_to_default else "NO_RESET", "POWER_UP_DEFAULT" if initial else "POWER_UP_UNDEFINED")
+'''
+
+
+def replay_inout_default(payload):
+    """an inout port with a default: reset returns it to the default, at power-up its driver holds 'U'"""
+    from contracts.c06_extra import _run_design
+
+    rc, out = _run_design(_INOUT_DESIGN)
+    return {"reproduced": rc == 0 and "RESET_TO_DEFAULT" in out and "POWER_UP_UNDEFINED" in out, "detail": out[-200:]}
